@@ -344,12 +344,12 @@ type View struct {
 
 	AddSpaces, NoFollow, NoFollowFQ, NoReferrer, NoReferrerFQ, TargetBlank bool
 	ParseableURLs, RelativeURLs, DataAttrs, Comments, CrossOrigin, Unsafe  bool
-	Sandbox    map[string]bool // nil = option off
-	Schemes    map[string][]string
-	SchemeRes  []*regexp.Regexp
-	Rewriter   string
-	ValueREOn  map[string]bool // attribute names that carry at least one value pattern anywhere
-	HasPattern bool
+	Sandbox                                                                map[string]bool // nil = option off
+	Schemes                                                                map[string][]string
+	SchemeRes                                                              []*regexp.Regexp
+	Rewriter                                                               string
+	ValueREOn                                                              map[string]bool // attribute names that carry at least one value pattern anywhere
+	HasPattern                                                             bool
 }
 
 var defaultBare = strings.Fields(`abbr acronym address article aside audio b bdi blockquote body br button
